@@ -670,14 +670,27 @@ def run(ctx):
                 kind = ('hashed' if f.startswith('|') else 'negated' if '!' in f else 'cidr' if '/' in f else
                         'wildcard' if ('*' in f or '?' in f) else 'port' if f.startswith('[') else 'plain')
                 ctx.count('line.%s.%s' % (kind, ln['marker'] or 'key'))
-    stage_cert_validate(ctx, pool)
-    ctx.log('cert.validate stage done')
-    stage_decide(ctx, pool, configs)
-    ctx.log('decision stage done')
-    stage_connect(ctx, pool, configs if ctx.tier == 'quick' else configs + [gen_config(rng) for _ in range(1200)])
-    ctx.log('connect stage done')
-    stage_scripts(ctx, pool, configs, 2500 if ctx.tier == 'thorough' else 260)
-    ctx.log('script stage done')
+    hostile = sum(1 for c in configs if c['form'] != 'none' and (c['alias'] or c['host']).endswith('.evil.net') and
+                  any(ln['kind'] == 'entry' and '*' in ln['field'] and 'example' in ln['field'] for ln in c['lines']))
+    ctx.count('config.hostile_name_against_wildcard_line', hostile)
+    if not hostile:
+        ctx.broke('vacuity:hostile_name_against_wildcard_line', 'no such configuration generated')
+    try:
+        stage_cert_validate(ctx, pool)
+        ctx.log('cert.validate stage done')
+        stage_decide(ctx, pool, configs)
+        ctx.log('decision stage done')
+        stage_connect(ctx, pool, configs if ctx.tier == 'quick' else configs + [gen_config(rng) for _ in range(1200)])
+        ctx.log('connect stage done')
+        stage_scripts(ctx, pool, configs, 2500 if ctx.tier == 'thorough' else 260)
+        ctx.log('script stage done')
+    finally:
+        for f in os.listdir(ctx.work):
+            if f.startswith('kh_'):
+                try:
+                    os.remove(os.path.join(ctx.work, f))
+                except OSError:
+                    pass
 
 
 # --------------------------------------------------------------------------------------------------
